@@ -767,6 +767,13 @@ def classify_printed_text(text: str, pairs) -> tuple[str, str, str | None]:
     return "parser-misreads", mech, minimal
 
 
+def as_exact_or_none(thunk):
+    try:
+        return as_exact(thunk())
+    except Exception:  # noqa: BLE001 - mirrors the complete-bindings stage: a raising evaluate() is not "in the domain"
+        return None
+
+
 def _partial_order(names: list[str], k: int) -> list[str]:
     order = list(names)
     return [order.pop(k % len(order)) for _ in range(len(order))] if order else order
@@ -788,11 +795,18 @@ def sympy_verdict_tree(t, bindings, kind: str, order_seed: int) -> str | None:
     except Exception as exc:  # noqa: BLE001
         e = ("raises", type(exc).__name__)
     wrong = []
-    for bi, b in enumerate(bindings):
+    bi = -1  # index among the bindings the partial stage of tree_fails() used: in the domain, evaluate() numeric
+    for b in bindings:
         try:
             want = X.exact(t, b)
         except G.OutOfDomain:
             continue
+        if kind == "partial":
+            # the order of a partial evaluation is part of the observation (SymPy's rewriting of nested Mod
+            # depends on which symbol becomes a number first): use the very order the failing run used
+            if isinstance(e, tuple) or as_exact_or_none(lambda b=b: e.evaluate(b) if isinstance(e, ir.SymbolicDim) else e) is None:
+                continue
+            bi += 1
         order = _partial_order(sorted(b), order_seed + bi) if kind == "partial" else None
 
         def lib_value(b=b, order=order):
